@@ -9,6 +9,7 @@ from ..r_pack import rule_unpach_dispatch as _rule_unpach
 from ..r_query import rule_isotope_setter as _rule_iso_setter
 from ..r_round8 import rule_half_float_encoder as _r8_enc
 from ..r_round9 import rule_cis_trans_terminal_keys as _r9_ctk
+from ..r_round10 import rule_pack_length_before_cursor as _r10_len
 
 LEVEL = 'other'
 
@@ -33,3 +34,4 @@ def run(ck, repo):
     _rule_iso_setter(ck, repo, 'C10.D2-isotope-setter')
     _r8_enc(ck, repo, 'C10.D6-half-float-encoder')
     _r9_ctk(ck, repo, 'C10.D7-cis-trans-terminal-keys')
+    _r10_len(ck, repo, 'C10.D8-pack-length-before-cursor')
